@@ -174,6 +174,17 @@ pub fn addr6_del(mon: &mut NlMonitor, addr: &str, len: u8) -> Result<(), String>
     mon.wait_addr(false, addr.parse().map_err(|e| format!("{addr}: {e}"))?)
 }
 
+/// IPv4 address changes at run time (announced inside the `ip` command's own syscall; one pass
+/// through the rtnl lock afterwards all the same).
+pub fn addr4_add(addr: Ipv4Addr, len: u8) -> Result<(), String> {
+    sh(&format!("ip addr add {addr}/{len} dev {SRV_IF}"))?;
+    sh(&format!("ip link set {PEER_IF} up"))
+}
+pub fn addr4_del(addr: Ipv4Addr, len: u8) -> Result<(), String> {
+    sh(&format!("ip addr del {addr}/{len} dev {SRV_IF}"))?;
+    sh(&format!("ip link set {PEER_IF} up"))
+}
+
 pub fn teardown_veth() {
     let _ = sh(&format!("ip link del {SRV_IF}"));
     let _ = sh("ip link del wan0");
